@@ -62,6 +62,9 @@ func RunJob(t *testing.T) {
 	} else {
 		ch = choice.New(job.Seed)
 	}
+	for _, n := range job.PrefixN {
+		ch.Intn(n, "prefix")
+	}
 	scratch, err := os.MkdirTemp("", "plat-")
 	if err != nil {
 		t.Fatal(err)
